@@ -66,10 +66,20 @@ pub fn judge_threaded(c: &FCase, base: &Outcome, o: &Outcome, profile: &str) -> 
             }
             Ok(())
         }
-        Outcome::Panic { msg, loc, .. } => Err(Fail::new(
-            format!("{}|panic@{}", entry, loc),
-            format!("factor({}, {}) with threads={:?} panicked at {} [{}]: {}", c.n, c.algo, c.prefs.threads, loc, profile, msg),
-        )),
+        Outcome::Panic { msg, loc, .. } => {
+            // a panic that the single-threaded run of the same input and preferences raises at the same site does
+            // not depend on threads (e.g. the sieves' "not enough smooth numbers" give-up when double large primes
+            // are forced on a small input): that is C03's business, not a schedule matter
+            if let Outcome::Panic { loc: bloc, .. } = base {
+                if bloc == loc {
+                    return Ok(());
+                }
+            }
+            Err(Fail::new(
+                format!("{}|panic@{}", entry, loc),
+                format!("factor({}, {}) with threads={:?} panicked at {} [{}]: {}", c.n, c.algo, c.prefs.threads, loc, profile, msg),
+            ))
+        }
         Outcome::Died(s) => Err(Fail::new(
             format!("{}|process-died", entry),
             format!("factor({}, {}) with threads={:?} killed the process [{}]: {}", c.n, c.algo, c.prefs.threads, profile, s),
